@@ -26,25 +26,30 @@ Proof.
   constructor; [exact Himg|]. constructor; [exact I|]. exact HD.
 Qed.
 
-(* Recover's scan loses nothing: log and validated bodies untouched, complete
-   bodies kept, delivered files kept (or replaced by the finished move). *)
+(* Recover's scan loses nothing: log untouched; validated bodies untouched except
+   the one body that does not hash to the hash in its own companion (validated as
+   another version of the name; removed, fix "Recover checks the held file");
+   complete bodies kept, delivered files kept (or replaced by the finished move). *)
 Theorem C06_recover_scan_keeps_data : forall s fin val kv s' fin' val',
-  recover_one (s, fin, val) kv = (s', fin', val') ->
-  rlog s' = rlog s /\ waits s' = waits s /\
+  recover_one H (s, fin, val) kv = (s', fin', val') ->
+  rlog s' = rlog s /\
+  (waits s' = waits s \/
+   exists b, alookup (fst kv) (waits s) = Some b /\ H b <> c_hash (snd kv) /\
+             waits s' = aremove (fst kv) (waits s)) /\
   (forall n b, alookup n (fulls s) = Some b -> alookup n (fulls s') = Some b) /\
   (forall t b, alookup t (finals s) = Some b ->
                alookup t (finals s') = Some b \/ ahas t (flcks s) = true).
-Proof. exact recover_one_keeps_data. Qed.
+Proof. exact (recover_one_keeps_data H). Qed.
 
 (* the one window in which validated data was neither staged nor delivered
    under its name - between the two renames of fileutil.Move - is closed by
    Recover (fix c24e975) *)
 Theorem C06_interrupted_move_finished : forall s fin val n c body,
-  ahas n (waits s) = false -> ahas n (fulls s) = false -> alookup n (parts s) = None ->
+  alookup n (waits s) = None -> ahas n (fulls s) = false -> alookup n (parts s) = None ->
   alookup (match c_renamed c with [] => n | r => r end) (flcks s) = Some body ->
   alookup (match c_renamed c with [] => n | r => r end)
-          (finals (fst (fst (recover_one (s, fin, val) (n, c))))) = Some body.
-Proof. exact recover_one_finishes_move. Qed.
+          (finals (fst (fst (recover_one H (s, fin, val) (n, c))))) = Some body.
+Proof. exact (recover_one_finishes_move H). Qed.
 
 End C06.
 Print Assumptions C06_nothing_unvalidated_after_crash.
